@@ -9,6 +9,7 @@ from .cells import NAN, POISON, ModelGap, is_nan, norm_cell, cell_kind, BoolScal
 from .array import (ndarray, as_dtype, asarray_seq, cast_cell, infer_dtype, scalar_dtype, cint,
         is_symbolic, _broadcast_flat, _broadcast_shapes, _prod, _binop, _not, _str_width,
         str_dtype, cell_strlen, DT_BOOL, DT_INT, DT_FLOAT, DT_OBJECT, _size_str_dtype)
+from .cells import num_eq, num_lt
 from . import nondet
 
 _builtin_all, _builtin_any, _builtin_sum, _builtin_min, _builtin_max = all, any, sum, min, max
@@ -863,13 +864,13 @@ def _lt_key(a, b):
         return False
     if is_nan(b):
         return True
-    return a < b
+    return num_lt(a, b)
 
 
 def _eq_key(a, b):
     if is_nan(a) or is_nan(b):
         return is_nan(a) and is_nan(b)
-    return a == b
+    return num_eq(a, b)
 
 
 def _stable_order(keys_list):
